@@ -1,11 +1,10 @@
 SPECIFICATION Spec
 CONSTANTS
-  Mode = "scan"
-  MaxSeq = 4
-  MaxQ = 2
-  Batch = 200
+  Mode = "fasta"
+  MaxN = 300
+  FullTo = 400
+  Batch = 100
   Stride = 1
   Offset = 0
-  Devs = {"RgPt"}
 
 CHECK_DEADLOCK FALSE
